@@ -5,8 +5,8 @@ LEAN_MODULES = ["GT.Props.C06"]
 ASSUMPTIONS = ["float64 rounding outside the theorems; inputs with condition number <= 1e4"]
 
 
-def case_condition(R, D, diag, sorted_b, hist=False):
-    label = f"condition_on/R{R}/D{D}/diag{int(diag)}/sorted{int(sorted_b)}" + ("/hist" if hist else "")
+def case_condition(R, D, diag, sorted_b, hist=False, fixed_b=None):
+    label = f"condition_on/R{R}/D{D}/diag{int(diag)}/sorted{int(sorted_b)}" + ("/hist" if hist else "") + (f"/b{'-'.join(map(str, fixed_b))}" if fixed_b else "")
     def fn(m):
         rng = gen.rng_path(m.seed, label)
         fails = []
@@ -15,6 +15,8 @@ def case_condition(R, D, diag, sorted_b, hist=False):
             m.condition_on(p.reg, gen.subset(rng, D, proper=True))
             mutate_pdf(m, rng, p, diag=diag)
         b = gen.subset(rng, D, proper=True, ordered=sorted_b)
+        if fixed_b is not None:
+            b = np.array(fixed_b)
         a = np.array([d for d in range(D) if d not in list(b)])
         params = dict(R=R, D=D, b=[int(i) for i in b])
         c = m.condition_on(p.reg, b)
@@ -79,5 +81,8 @@ def cases(seed, tier):
     for i, (R, D) in enumerate(grid):
         out.append(case_condition(R, D, bool(i % 2), False))
         out.append(case_condition(R, D, bool((i + 1) % 2), True))
+    # contiguous index sets listed in another order, and reversed ranges
+    out.append(case_condition(2, 4, False, False, fixed_b=[2, 1])); out.append(case_condition(1, 5, False, False, fixed_b=[3, 1, 2]))
+    out.append(case_condition(2, 3, True, False, fixed_b=[2, 1, 0][:2]))
     out.append(case_condition(2, 3, False, False, hist=True)); out.append(case_condition(3, 2, True, True, hist=True))
     return seeded(out, seed)
